@@ -23,7 +23,8 @@ def build(case, d):
     else:
         scl, offs, wts = np.ones((nsub, 4 * C)), np.zeros((nsub, 4 * C)), np.ones((nsub, C))
     p = d / "t.sf"
-    pfitsgen.write_psrfits(str(p), raw, nsblk, nbits, case["asc"], FCH1, FOFF, TSAMP, scl, offs, wts, case["pol"])
+    pfitsgen.write_psrfits(str(p), raw, nsblk, nbits, case["asc"], FCH1, FOFF, TSAMP, scl, offs, wts, case["pol"],
+                           chan_bw_sign=case.get("chanbw", "consistent"))
     want = pfitsgen.expected_total_intensity(raw, nsblk, case["asc"], scl, offs, wts, case["pol"])
     return p, want
 
@@ -47,6 +48,7 @@ class C18(Prop):
         nsub = rng.choice((2, 3, 4))
         c = {"kind": kind, "nsblk": nsblk, "nsub": nsub, "C": rng.choice((4, 8)), "nbits": rng.choice((4, 8)),
              "pol": rng.choice(("IQUV", "AABBCRCI")), "asc": rng.random() < 0.5, "cal": rng.random() < 0.6,
+             "chanbw": rng.choice(("consistent", "consistent", "unsigned", "opposite")),
              "dseed": rng.randrange(1 << 30)}
         N = nsblk * nsub
         if kind == "read_plan":
